@@ -28,6 +28,7 @@ import PyIpmi.Base.Proto
 import PyIpmi.Model.Md5
 import PyIpmi.Model.Session
 import PyIpmi.Model.SessionKeepAlive
+import PyIpmi.Model.SessionCred
 import PyIpmi.Spec.BmcSession
 open PyIpmi PyIpmi.Proto PyIpmi.RmcpWire PyIpmi.Session
 
@@ -154,6 +155,17 @@ def handleC06 (ds : DState) (line : String) : DState × String :=
            | some a => toString a
            | none => "none")
     | none => (ds, "bad-op")
+  | ["cred", np, bu, uk, u, pk, p, auth] =>
+    -- credential FORM (Model/SessionCred.lean): where, if anywhere, the handshake ends in a Python error
+    let form (k : String) (bs : List Nat) : Cred.Form :=
+      if k == "none" then .none else if k == "bytes" then .bytes bs else .str bs
+    match ofHex u, ofHex p, auth.toNat? with
+    | some u, some p, some auth =>
+      (ds, match Cred.failsAfter ⟨np == "i", bu == "i"⟩ (form uk u) (form pk p) auth with
+           | none => "none"
+           | some (n, .attributeError) => s!"{n} py:AttributeError"
+           | some (n, .typeError) => s!"{n} py:TypeError")
+    | _, _, _ => (ds, "bad-op")
   | ["strongest", sup, impl] =>
     match sup.toNat?, parseNatList impl with
     | some sup, some impl =>
